@@ -31,6 +31,7 @@ type Config struct {
 	Sugg   bool      `json:"sugg"`
 	Rules0 []string  `json:"rules0"`
 	HTTP   bool      `json:"http"`
+	QOnly  bool      `json:"qonly,omitempty"` // serve QueryOnlySDL instead of SchemaSDL
 }
 
 // Session is a configuration plus a history: steps run one after another,
@@ -80,6 +81,16 @@ func newInnerCache(c Config) graphql.Cache[*ast.QueryDocument] {
 		return lru.New[*ast.QueryDocument](c.CN)
 	}
 	return graphql.NoCache[*ast.QueryDocument]{}
+}
+
+var (
+	qoOnce sync.Once
+	qoES   *ES
+)
+
+func queryOnlyES() *ES {
+	qoOnce.Do(func() { qoES = NewQueryOnlyES() })
+	return qoES
 }
 
 type server struct {
@@ -209,6 +220,9 @@ func (s *server) runHTTP(ri *ReqInfo, q *Request) {
 // Run executes the session against the real executor / handler and fills
 // s.Lines with the ndjson trace (Scenario, Req and H lines, End).
 func (s *Session) Run(es *ES) {
+	if s.Cfg.QOnly {
+		es = queryOnlyES()
+	}
 	t := &Tracer{}
 	qids := map[string]string{}
 	var qmu sync.Mutex
